@@ -599,6 +599,9 @@ def rv_init(self, g):
     g.adj = 0
     g.done = False
     g.S = set()
+    # cost of the stream so far for arbitrary costs C_UF, C_UB (one forward / adjoint step) and
+    # C_WD, C_RD (one checkpoint written to / read from DISK); RAM and WORK transfers are free
+    g.cost = 0 * C_UF
 
 
 def rv_counters(self, g):
@@ -624,6 +627,9 @@ def rv_forward(self, g, n0, n1, write_ics, write_adj_deps, storage):
         if storage == StorageType.RAM:
             assert self.uses_storage_type(storage), "C11:uses_storage_type_true_for_every_storage_touched"
         g.S.add((storage, n0))
+    g.cost = g.cost + (n1 - n0) * C_UF
+    if write_ics and storage == StorageType.DISK:
+        g.cost = g.cost + C_WD
     g.fwd = n1
     rv_counters(self, g)
     assert not self.is_exhausted, "C09:is_exhausted_false_while_actions_remain"
@@ -645,6 +651,7 @@ def rv_reverse(self, g, n1, n0, clear_adj_deps):
     assert n1 == n0 + 1, "C12:one_step_of_dependencies"
     assert clear_adj_deps, "C12:work_holds_no_dependencies_after_reverse"
     g.adj = g.adj + (n1 - n0)
+    g.cost = g.cost + (n1 - n0) * C_UB
     rv_counters(self, g)
     assert not self.is_exhausted, "C09:is_exhausted_false_while_actions_remain"
 
@@ -660,6 +667,8 @@ def rv_load(self, g, n, from_storage, to_storage, is_move):
     if is_move:
         assert (from_storage, n) in g.S, "C01:checkpoint_present_in_named_storage"
         g.S.remove((from_storage, n))
+    if from_storage == StorageType.DISK:
+        g.cost = g.cost + C_RD
     g.fwd = n
     rv_counters(self, g)
     assert not self.is_exhausted, "C09:is_exhausted_false_while_actions_remain"
@@ -676,6 +685,10 @@ def rv_move(self, g, n, from_storage, to_storage):
 def rv_end_reverse(self, g):
     assert not g.done, "C02,C09:nothing_after_final_action"
     assert len(g.S) == 0, "C04:storage_empty_at_final_EndReverse"
+    # the stream costs exactly what the operation list costs (C07, C19: with the builders' makespan
+    # contracts this is the recurrence's optimum + n * uf)
+    assert g.cost == OPSUM(len(self._schedule), C_UF, C_UB, C_WD, C_RD), \
+        "C07,C19,C05:stream_cost_is_the_sum_of_the_operation_costs"
     g.done = True
     assert self._r == g.adj, "C08:r_is_steps_reversed"
     assert self.is_exhausted, "C09:is_exhausted_true_once_final_action_emitted"
